@@ -20,3 +20,51 @@ package parser
 //@   ensures rest:  old(len(p.buffer)) >= 4 ==> sameslice(p.buffer, old(p.buffer)[4:])
 //@   ensures short: old(len(p.buffer)) <  4 ==> r == 0 && sameslice(p.buffer, old(p.buffer))
 //@   ensures range: 0 <= r && r < 4294967296
+
+//@ spec u32of(b, big) = ite(big, be32(b), le32r(b))
+//@ spec u64of(b, big) = ite(big, be64(b), le64r(b))
+
+//@ func (p *Parser) ParseInt64() (r int64)
+//@   requires nonnil: p != nil
+//@   modifies p.buffer
+//@   ensures value: old(len(p.buffer)) >= 8 ==> r == int64(uint64(u64of(old(p.buffer), p.bigEndian)))
+//@   ensures rest:  old(len(p.buffer)) >= 8 ==> sameslice(p.buffer, old(p.buffer)[8:])
+//@   ensures short: old(len(p.buffer)) <  8 ==> r == 0 && sameslice(p.buffer, old(p.buffer))
+
+//@ func (p *Parser) ParsePointer() (r int64)
+//@   requires nonnil: p != nil
+//@   modifies p.buffer
+//@   ensures value: old(len(p.buffer)) >= 8 ==> r == int64(uint64(u64of(old(p.buffer), p.bigEndian)))
+//@   ensures rest:  old(len(p.buffer)) >= 8 ==> sameslice(p.buffer, old(p.buffer)[8:])
+//@   ensures short: old(len(p.buffer)) <  8 ==> r == 0 && sameslice(p.buffer, old(p.buffer))
+
+//@ func (p *Parser) ParseBool() (r bool)
+//@   requires nonnil: p != nil
+//@   modifies p.buffer
+//@   ensures value: old(len(p.buffer)) >= 4 ==> r == (u32of(old(p.buffer), p.bigEndian) != 0)
+//@   ensures rest:  old(len(p.buffer)) >= 4 ==> sameslice(p.buffer, old(p.buffer)[4:])
+//@   ensures short: old(len(p.buffer)) <  4 ==> r == false && sameslice(p.buffer, old(p.buffer))
+
+//@ func (p *Parser) SetBigEndian(bigEndian bool)
+//@   requires nonnil: p != nil
+//@   modifies p.bigEndian
+//@   ensures set: p.bigEndian == bigEndian
+
+//@ func (p *Parser) ParseBytes() (r []byte)
+//@   requires nonnil: p != nil
+//@   modifies p.buffer
+//@   ensures short: old(len(p.buffer)) < 4 ==> len(r) == 0 && sameslice(p.buffer, old(p.buffer))
+//@   ensures field: old(len(p.buffer)) >= 4 ==> sameslice(r, old(p.buffer)[4:4+min(u32of(old(p.buffer), p.bigEndian), old(len(p.buffer))-4)])
+//@   ensures rest:  old(len(p.buffer)) >= 4 ==> sameslice(p.buffer, old(p.buffer)[4+min(u32of(old(p.buffer), p.bigEndian), old(len(p.buffer))-4):])
+
+//@ func (p *Parser) ParseAtLeastBytes(NumberOfBytes int) (r []byte)
+//@   requires nonnil: p != nil
+//@   requires nonneg: NumberOfBytes >= 0
+//@   modifies p.buffer
+//@   ensures field: sameslice(r, old(p.buffer)[:min(NumberOfBytes, old(len(p.buffer)))])
+//@   ensures rest:  sameslice(p.buffer, old(p.buffer)[min(NumberOfBytes, old(len(p.buffer))):])
+
+//@ func (p *Parser) Buffer() (r []byte)
+//@   requires nonnil: p != nil
+//@   pure
+//@   ensures same: sameslice(r, p.buffer)
